@@ -395,7 +395,13 @@ def run_case(case, obs):
     class UserError(RuntimeError):
         pass
 
-    err = UserError(f"user failure at evaluation {case['k']}")
+    class SimulatorCrash(Exception):      # an application-defined exception, not derived from any built-in error class
+        pass
+
+    # the class of what the user's evaluator raises is the user's business
+    klass = [UserError, ValueError, SimulatorCrash, KeyError, OSError, ZeroDivisionError][(case["k"] + case["i"]) % 6]
+    err = klass(f"user failure at evaluation {case['k']}")
+    obs.feature("evaluator_exception." + klass.__name__)
     b = run_trace(spec, True, raise_at={case["k"]: err})
     obs.count("external_runs")
     if b["calls"] <= case["k"]:
@@ -405,5 +411,9 @@ def run_case(case, obs):
     obs.count("evaluator_exception_runs")
     obs.nontrivial(case)
     _check_process_table(obs, "after the evaluator raised", tag)
-    if b["exc"] is not err:
+    chain, cur = [], b["exc"]
+    while cur is not None and len(chain) < 10:      # a back-end may wrap what its callables raise ("from" the original)
+        chain.append(cur)
+        cur = cur.__cause__ or cur.__context__
+    if not any(c is err for c in chain):
         obs.violation("user_exception_swallowed_or_replaced", escaped=repr(b["exc"]), code=b["code"], **tag)
